@@ -512,6 +512,22 @@ func runTblCase(r *rng, family string, nr, nc int) (c tblCase, coq string, fails
 		}
 		res := applyTblOp(t, o)
 		after := viewTable(t)
+		// the reading calls (iterators, ranges, searches) on the table as it is now: they must not panic on any
+		// table, and on a plain rows-by-columns table they visit every cell once, row by row
+		if i%4 == 3 {
+			// (its own random stream: the history itself is generated from r alone)
+			if msg := readSweep(t, newRng(uint64(i)*7919+uint64(len(after.Rows))), isPlainV(after)); msg != "" {
+				cl := "read_sweep"
+				if strings.HasPrefix(msg, "panic") {
+					cl = "no_panic"
+				}
+				kls := ""
+				if !isPlainV(after) {
+					kls = "read_on_merged_table"
+				}
+				fails = append(fails, OracleFailure{Clause: cl, Class: kls, Detail: fmt.Sprintf("after op %d %s%v: %s", i, o.Kind, o.A, msg)})
+			}
+		}
 		c.Ops = append(c.Ops, o)
 		steps = append(steps, fmt.Sprintf("(%s, mkObs %d %s)", o.coq(), res, after.coq()))
 		if res == 0 {
@@ -630,4 +646,74 @@ func runC09(cfg *runCfg) error {
 	res.Shards = writeShards(cfg.out, "c09cases", "From Coq Require Import ZArith NArith List.\nFrom WZ Require Import Model.Table Corr.TableCorr.", "case", "mismatches", coqCases, 60)
 	res.write(cfg.out)
 	return nil
+}
+
+// readSweep: ForEach / ForEachInRow / ForEachInColumn / the cell iterator / GetCellRange / FindCellsByText
+func readSweep(t *document.Table, r *rng, plain bool) (msg string) {
+	defer func() {
+		if e := recover(); e != nil {
+			msg = fmt.Sprintf("panic in a reading call: %v", e)
+		}
+	}()
+	nr, nc := t.GetRowCount(), t.GetColumnCount()
+	var order [][2]int
+	_ = t.ForEach(func(row, col int, cell *document.TableCell, text string) error {
+		order = append(order, [2]int{row, col})
+		return nil
+	})
+	if plain {
+		k := 0
+		for i := 0; i < nr; i++ {
+			for j := 0; j < nc; j++ {
+				if k >= len(order) || order[k] != [2]int{i, j} {
+					return fmt.Sprintf("ForEach visits %v on a %dx%d table", order, nr, nc)
+				}
+				k++
+			}
+		}
+		if k != len(order) {
+			return fmt.Sprintf("ForEach visits %d cells of a %dx%d table", len(order), nr, nc)
+		}
+	}
+	for _, ri := range []int{-1, 0, r.intn(nr + 1), nr} {
+		seen := 0
+		err := t.ForEachInRow(ri, func(col int, cell *document.TableCell, text string) error { seen++; return nil })
+		if plain && ri >= 0 && ri < nr && (err != nil || seen != nc) {
+			return fmt.Sprintf("ForEachInRow(%d) visits %d cells of %d (err %v)", ri, seen, nc, err)
+		}
+		if (ri < 0 || ri >= nr) && err == nil {
+			return fmt.Sprintf("ForEachInRow(%d) on a table of %d rows reports no error", ri, nr)
+		}
+	}
+	for _, cj := range []int{-1, 0, r.intn(nc + 1), nc} {
+		seen := 0
+		err := t.ForEachInColumn(cj, func(row int, cell *document.TableCell, text string) error { seen++; return nil })
+		if plain && cj >= 0 && cj < nc && (err != nil || seen != nr) {
+			return fmt.Sprintf("ForEachInColumn(%d) visits %d cells of %d (err %v)", cj, seen, nr, err)
+		}
+	}
+	it := t.NewCellIterator()
+	n := 0
+	for it.HasNext() && n < 10000 {
+		if _, err := it.Next(); err != nil {
+			break
+		}
+		_, _ = it.Current()
+		_ = it.Progress()
+		n++
+	}
+	if plain && n != nr*nc {
+		return fmt.Sprintf("the cell iterator yields %d cells of a %dx%d table (Total() = %d)", n, nr, nc, it.Total())
+	}
+	it.Reset()
+	if nr > 0 && nc > 0 {
+		a, b := r.intn(nr), r.intn(nc)
+		cells, err := t.GetCellRange(a, b, nr-1, nc-1)
+		if plain && (err != nil || len(cells) != (nr-a)*(nc-b)) {
+			return fmt.Sprintf("GetCellRange(%d,%d,%d,%d) gives %d cells (err %v)", a, b, nr-1, nc-1, len(cells), err)
+		}
+	}
+	_, _ = t.GetCellRange(-1, 0, nr, nc)
+	_, _ = t.FindCellsByText("T1", false)
+	return ""
 }
